@@ -93,6 +93,8 @@ def run(ctx, big=None):
     ]
     for name, strings in streams(ctx, big):
         exp, diffs = cdcgen.compare(ctx, strings, name)
+        if name != "random-atoms" or not ctx.thorough:
+            cdcgen.compare_tokens(ctx, strings[:40000], "tok:" + name)
         for s in strings:
             ctx.note_case(s)
         for s in strings[:2] + strings[len(strings) // 2: len(strings) // 2 + 2]:
